@@ -46,6 +46,9 @@ pub enum Op {
     Enc { label: u8, outcome: Outcome, ext: bool },
     /// continue the oldest pending fragment train to completion
     Cont,
+    /// call encap_frag again with a context that is no longer current: the context of a train that was
+    /// superseded by a newer train on its fragment id, or of a train already finished (a re-sent end packet)
+    ContStale,
     Reset,
     Disable,
     Enable,
@@ -56,6 +59,7 @@ pub fn op_str(op: &Op) -> String {
     match op {
         Op::Enc { label, outcome, ext } => format!("{}({},{:?})", if *ext { "encap_ext" } else { "encap" }, LABEL_NAMES[*label as usize], outcome),
         Op::Cont => "encap_frag(pending)".into(),
+        Op::ContStale => "encap_frag(stale context)".into(),
         Op::Reset => "reset".into(),
         Op::Disable => "disable".into(),
         Op::Enable => "enable".into(),
@@ -110,7 +114,7 @@ pub fn alphabet_c04() -> Vec<Op> {
     v.push(Op::Enc { label: 0, outcome: Outcome::FragTail, ext: false });
     v.push(Op::Enc { label: 2, outcome: Outcome::FragTail, ext: false });
     v.push(Op::Enc { label: 1, outcome: Outcome::HeaderOnly, ext: false });
-    v.extend([Op::Cont, Op::Reset, Op::Disable, Op::Enable, Op::EnableMax(0), Op::EnableMax(1), Op::EnableMax(2)]);
+    v.extend([Op::Cont, Op::ContStale, Op::Reset, Op::Disable, Op::Enable, Op::EnableMax(0), Op::EnableMax(1), Op::EnableMax(2)]);
     v
 }
 
@@ -129,6 +133,9 @@ struct Pending {
     intended: Option<Label>,
     must_deliver: bool,
     superseded: bool,
+    /// a packet of another PDU was sent on this train's fragment id while it was in flight (or this is
+    /// itself such a packet): the receiver may legitimately refuse it, nothing is demanded about it
+    spoiled: bool,
 }
 
 /// Executes a history. `with_rx` = lock-step receiver (C04); otherwise sender only (C15).
@@ -144,6 +151,8 @@ pub struct Exec {
     // --- C04 ground truth
     prev_intended: Option<Label>,
     pending: Vec<Pending>,
+    /// contexts that are no longer current (superseded or finished trains), newest last
+    stale: Vec<Pending>,
     next_id: u8,
     seq: u32,
     pub emitted_packets: u64,
@@ -152,6 +161,9 @@ pub struct Exec {
     pub failed_calls: u64,
     /// packets the lock-step receiver rejected
     pub rx_errors: u64,
+    /// of which: packets sent from a stale context / of a train spoiled by one (the sender mixed two PDUs
+    /// on one fragment id; rejecting them is the receiver's duty)
+    pub rx_benign: u64,
     /// packets produced (for receiver-only stream mutation)
     pub record: Option<Vec<Vec<u8>>>,
 }
@@ -172,6 +184,7 @@ impl Exec {
             carried: None,
             prev_intended: None,
             pending: Vec::new(),
+            stale: Vec::new(),
             next_id: 0,
             seq: 0,
             emitted_packets: 0,
@@ -179,6 +192,7 @@ impl Exec {
             deliveries: 0,
             failed_calls: 0,
             rx_errors: 0,
+            rx_benign: 0,
             record: None,
         }
     }
@@ -232,6 +246,40 @@ impl Exec {
                 match r {
                     Ok(Ok(EncapStatus::CompletedPkt(n))) if (n as usize) <= buf.len() => {
                         buf.truncate(n as usize);
+                        self.feed(&buf, Some((&p, true)), mask, hist, rep, replay);
+                        self.stale.push(p);
+                        if self.stale.len() > 4 {
+                            self.stale.remove(0);
+                        }
+                        true
+                    }
+                    _ => {
+                        rep.count("labelops.cont-failed");
+                        false
+                    }
+                }
+            }
+            Op::ContStale => {
+                let mut p = match self.stale.pop() {
+                    Some(p) => p,
+                    None => return true,
+                };
+                let mut buf = vec![0u8; 200];
+                let r = guard(|| self.enc.encap_frag(&p.pdu, &p.ctx, &mut buf));
+                match r {
+                    Ok(Ok(EncapStatus::CompletedPkt(n))) if (n as usize) <= buf.len() => {
+                        buf.truncate(n as usize);
+                        rep.count("labelops.stale-end-packets");
+                        // whatever train is in flight on that id is mixed up with this packet from now on
+                        let id = p.ctx.frag_id();
+                        for q in self.pending.iter_mut() {
+                            if q.ctx.frag_id() == id {
+                                q.spoiled = true;
+                                q.must_deliver = false;
+                            }
+                        }
+                        p.spoiled = true;
+                        p.must_deliver = false;
                         self.feed(&buf, Some((&p, true)), mask, hist, rep, replay);
                         true
                     }
@@ -327,18 +375,25 @@ impl Exec {
                 let must_deliver = l != Label::ReUse;
                 if let Some(c) = ctx {
                     // a new train on an id whose train is still pending supersedes it
-                    for p in self.pending.iter_mut() {
-                        if p.ctx.frag_id() == frag_id {
-                            p.superseded = true;
+                    let mut i = 0;
+                    while i < self.pending.len() {
+                        if self.pending[i].ctx.frag_id() == frag_id {
+                            let mut old = self.pending.remove(i);
+                            old.superseded = true;
+                            self.stale.push(old);
+                        } else {
+                            i += 1;
                         }
                     }
-                    self.pending.retain(|p| !p.superseded);
-                    let p = Pending { pdu: pdu.clone(), ctx: c, intended, must_deliver, superseded: false };
+                    if self.stale.len() > 4 {
+                        self.stale.remove(0);
+                    }
+                    let p = Pending { pdu: pdu.clone(), ctx: c, intended, must_deliver, superseded: false, spoiled: false };
                     self.feed(&buf, Some((&p, false)), mask, hist, rep, replay);
                     self.pending.push(p);
                     self.next_id = self.next_id.wrapping_add(1);
                 } else {
-                    let p = Pending { pdu: pdu.clone(), ctx: ContextFrag::new(0, 0, 0), intended, must_deliver, superseded: false };
+                    let p = Pending { pdu: pdu.clone(), ctx: ContextFrag::new(0, 0, 0), intended, must_deliver, superseded: false, spoiled: false };
                     self.feed(&buf, Some((&p, true)), mask, hist, rep, replay);
                 }
                 true
@@ -362,7 +417,8 @@ impl Exec {
         self.rx.observe(pkt, &res, if mask & M_C04 != 0 { RX_C04 } else { 0 }, "lockstep", rep, replay);
         let (p, is_final) = pdu.unwrap();
         let kind = Kind::from_word(u16::from_be_bytes([pkt[0], pkt[1]]));
-        let c04 = mask & M_C04 != 0;
+        // nothing is demanded about packets of PDUs the sender mixed on one fragment id (C03's business)
+        let c04 = mask & M_C04 != 0 && !p.spoiled;
         match &res {
             Err(_) => {
                 rep.count("labelops.receiver-panic");
@@ -393,7 +449,11 @@ impl Exec {
                 }
             }
             Ok(Err(_)) => {
-                self.rx_errors += 1;
+                if p.spoiled {
+                    self.rx_benign += 1;
+                } else {
+                    self.rx_errors += 1;
+                }
                 if p.must_deliver && c04 {
                     rep.violation("C04", format!("not-delivered:{}", kind.name()), || format!("history [{}]: packet {} of a PDU sent with label {:?} was rejected: {}", hist(), hex_short(pkt, 32), p.intended.map(|l| label_str(&l)), dec_res_str(&res)), replay);
                 }
@@ -414,6 +474,7 @@ pub fn random_op(rng: &mut Rng, with_fail_kinds: bool) -> Op {
         2 => Op::Enable,
         3 => Op::EnableMax([0u8, 1, 2, 3, 5, 255][rng.below(6)]),
         4 | 5 => Op::Cont,
+        6 => Op::ContStale,
         _ => {
             let label = [0u8, 0, 1, 2, 2, 3, 4, 5, 0, 2, 7][rng.below(11)];
             let outcome = match rng.below(if with_fail_kinds { 14 } else { 11 }) {
